@@ -1,9 +1,10 @@
-import O2P.Lemmas.DiagramSem
+import O2P.Lemmas.IsoB
 /-!
 # C01 — the learned diagram accepts every job it was learned from (partial)
 The learner is not modelled.  What is proved is about the judge: the semantics only produces well-formed
-jobs over the definition's event names (`runs_types`, `runs_wellformed`), acceptance is exactly "some
-enumerated execution is matched by the isomorphism search" (`accepts_iff`), and a text the parser accepts
+jobs over the definition's event names (`runs_types`, `runs_wellformed`), the isomorphism search is sound
+and complete (`isoB_sound`, `isoB_complete`), so acceptance is exactly "the job is isomorphic to an execution
+of the definition" (`accepts_iff_iso`: a rejection is never the search's fault), and a text the parser accepts
 has `break`/`detach` only at the end of a branch (`parse_ok_tail`).  The property itself is `C01_full`,
 decided on generated definitions by the correspondence runs.
 -/
